@@ -72,7 +72,7 @@ class Recorder:
         for d, ds in w.ds_mem.items():
             o = ds.X[0] if isinstance(ds.X, list) else ds.X
             lab = L._labels(o, ds.dim)
-            if all(ds.dim in r.dims and L._labels(r, ds.dim) == lab for r in res):
+            if all(L._labels(r, ds.dim) == lab for r in res):
                 return d
         return "none"
 
